@@ -133,6 +133,23 @@ def run_property(prop, tier, repo_root, seed, open_findings):
             violations.append(replay.violation_for(eng, key, ob, r, repo_root))
         else:
             open_obs.append((key, ob, r))
+    # a second, longer attempt for what timed out (the budget is wall-clock: a loaded machine must not
+    # flip a verdict to undecided)
+    if open_obs:
+        again, rest = open_obs[:24], open_obs[24:]
+        res2 = solve.discharge_all([ob for _, ob, _ in again], timeout_s=timeout * 4, confirm=confirm)
+        open_obs = []
+        for (key, ob, r), r2 in zip(again, res2):
+            account(r2)
+            if good(r2):
+                discharged += 1
+                by_backend[r2['by']] = by_backend.get(r2['by'], 0) + 1
+            elif r2['verdict'] == 'sat':
+                from . import replay
+                violations.append(replay.violation_for(eng, key, ob, r2, repo_root))
+            else:
+                open_obs.append((key, ob, r2))
+        open_obs.extend(rest)
     # obligations the solvers left open: a bounded search for a small counterexample decides some
     # of them (a model found under bounds is a model); the rest stay undecided
     def refute(queries):
